@@ -501,4 +501,139 @@ theorem logNorm_spec (v : List XR) (hv : ∀ x ∈ v, x.isLogP) (hfin : finites 
     simp only [Option.map_some, exp_increment r v hv, norm_fin _ hS, hsoft]
   · rw [hsoft, sum_map_div, div_self hS]
 
+/-! ### Log2Sum (base 2) -/
+@[simp] theorem x_exp2 (a : XR) : VInf.exp2 a = XR.exp2 a := rfl
+@[simp] theorem x_log2 (a : XR) : VNum.log2 a = XR.log2 a := rfl
+
+noncomputable def keptSum2 (M : ℝ) (l : List ℝ) : ℝ := ((l.filter fun a => decide (M - 500 < a)).map fun a => (2 : ℝ) ^ (a - M)).sum
+noncomputable def shiftedSum2 (M : ℝ) (l : List ℝ) : ℝ := (l.map fun a => (2 : ℝ) ^ (a - M)).sum
+
+theorem two_rpow_pos (t : ℝ) : 0 < (2 : ℝ) ^ t := Real.rpow_pos_of_pos (by norm_num) t
+
+theorem window_fold2 (M : ℝ) (xs : List XR) (hxs : ∀ x ∈ xs, x.isLogP) (c : ℝ) :
+    xs.foldl (fun s x => if VInf.inWindow (XR.fin M) x then s + VInf.exp2 (x - XR.fin M) else s) (XR.fin c)
+      = XR.fin (c + keptSum2 M (finites xs)) := by
+  induction xs generalizing c with
+  | nil => simp [keptSum2, finites]
+  | cons x xs ih =>
+    have hx : x.isLogP := hxs x List.mem_cons_self
+    have hxs' : ∀ y ∈ xs, y.isLogP := fun y hy => hxs y (List.mem_cons_of_mem _ hy)
+    rw [List.foldl_cons]
+    cases x with
+    | nan => exact absurd hx (by simp [XR.isLogP])
+    | pinf => exact absurd hx (by simp [XR.isLogP])
+    | ninf =>
+      have : VInf.inWindow (XR.fin M) XR.ninf = false := rfl
+      simp only [this, Bool.false_eq_true, ↓reduceIte]
+      rw [ih hxs' c]; simp [finites]
+    | fin a =>
+      have e1 : VInf.inWindow (XR.fin M) (XR.fin a) = decide (M + -500 < a) := rfl
+      have e2 : (XR.fin c + VInf.exp2 (XR.fin a - XR.fin M)) = XR.fin (c + (2 : ℝ) ^ (a + -M)) := rfl
+      rw [e1, e2]
+      by_cases h : M - 500 < a
+      · have h' : M + -500 < a := by linarith
+        simp only [h', decide_true, ↓reduceIte]
+        rw [ih hxs' _]
+        simp only [finites, keptSum2, List.filter_cons, h, decide_true, ↓reduceIte, List.map_cons, List.sum_cons]
+        congr 1; rw [show a + -M = a - M from by ring]; ring
+      · have h' : ¬ M + -500 < a := by intro hh; apply h; linarith
+        simp only [h', decide_false, Bool.false_eq_true, ↓reduceIte]
+        rw [ih hxs' _]
+        simp [finites, keptSum2, h]
+
+theorem keptSum2_nonneg (M : ℝ) (l : List ℝ) : 0 ≤ keptSum2 M l := by
+  unfold keptSum2
+  apply List.sum_nonneg
+  intro x hx
+  simp only [List.mem_map] at hx
+  obtain ⟨a, _, rfl⟩ := hx
+  exact le_of_lt (two_rpow_pos _)
+
+theorem keptSum2_ge_one (M : ℝ) (l : List ℝ) (h : M ∈ l) : 1 ≤ keptSum2 M l := by
+  induction l with
+  | nil => cases h
+  | cons a l ih =>
+    unfold keptSum2
+    rcases List.mem_cons.mp h with e | e
+    · subst e
+      have : M - 500 < M := by linarith
+      simp only [List.filter_cons, this, decide_true, ↓reduceIte, List.map_cons, List.sum_cons, sub_self, Real.rpow_zero]
+      have := keptSum2_nonneg M l
+      unfold keptSum2 at this; linarith
+    · have := ih e
+      unfold keptSum2 at this
+      by_cases hh : M - 500 < a
+      · simp only [List.filter_cons, hh, decide_true, ↓reduceIte, List.map_cons, List.sum_cons]
+        have := two_rpow_pos (a - M); linarith
+      · simp only [List.filter_cons, hh, decide_false, Bool.false_eq_true, ↓reduceIte]; exact this
+
+theorem shifted_bounds2 (M : ℝ) (l : List ℝ) :
+    keptSum2 M l ≤ shiftedSum2 M l ∧ shiftedSum2 M l ≤ keptSum2 M l + l.length * (2 : ℝ) ^ (-500 : ℝ) := by
+  induction l with
+  | nil => simp [keptSum2, shiftedSum2]
+  | cons a l ih =>
+    obtain ⟨h1, h2⟩ := ih
+    unfold keptSum2 shiftedSum2 at *
+    by_cases hh : M - 500 < a
+    · simp only [List.filter_cons, hh, decide_true, ↓reduceIte, List.map_cons, List.sum_cons, List.length_cons, Nat.cast_add, Nat.cast_one]
+      have := two_rpow_pos (-500 : ℝ)
+      constructor <;> nlinarith
+    · simp only [List.filter_cons, hh, decide_false, Bool.false_eq_true, ↓reduceIte, List.map_cons, List.sum_cons, List.length_cons, Nat.cast_add, Nat.cast_one]
+      have hle : (2 : ℝ) ^ (a - M) ≤ (2 : ℝ) ^ (-500 : ℝ) :=
+        Real.rpow_le_rpow_of_exponent_le (by norm_num) (by linarith [not_lt.mp hh])
+      have hpos := two_rpow_pos (a - M)
+      constructor <;> nlinarith
+
+theorem sum_exp2_shift (M : ℝ) (l : List ℝ) : (l.map fun a => (2 : ℝ) ^ a).sum = (2 : ℝ) ^ M * shiftedSum2 M l := by
+  unfold shiftedSum2
+  induction l with
+  | nil => simp
+  | cons a l ih =>
+    simp only [List.map_cons, List.sum_cons, ih, mul_add]
+    congr 1
+    rw [← Real.rpow_add (by norm_num : (0 : ℝ) < 2)]; congr 1; ring
+
+/-- `Log2Sum` on log2-probabilities with a finite entry: within `n·2^{-500}/ln 2` of `log2 Σ 2^{x_i}` over the finite entries -/
+theorem log2Sum_spec (v : List XR) (hv : ∀ x ∈ v, x.isLogP) (hfin : finites v ≠ []) :
+    ∃ r : ℝ, log2Sum v = some (XR.fin r) ∧
+      |r - Real.logb 2 ((finites v).map fun a => (2 : ℝ) ^ a).sum| ≤ v.length * (2 : ℝ) ^ (-500 : ℝ) / Real.log 2 := by
+  have hne : v ≠ [] := by rintro rfl; exact hfin rfl
+  rcases vmax_logp v hne hv with ⟨_, h2⟩ | ⟨M, h1, h2, h3⟩
+  · exact absurd h2 hfin
+  · have hk1 := keptSum2_ge_one M (finites v) h2
+    have hkpos : 0 < keptSum2 M (finites v) := by linarith
+    obtain ⟨hb1, hb2⟩ := shifted_bounds2 M (finites v)
+    have hSpos : 0 < shiftedSum2 M (finites v) := by linarith
+    have hl2 : 0 < Real.log 2 := Real.log_pos (by norm_num)
+    refine ⟨Real.logb 2 (keptSum2 M (finites v)) + M, ?_, ?_⟩
+    · unfold log2Sum
+      rw [h1]
+      have e1 : VNum.eq (XR.fin M) (VInf.inf : XR) = false := rfl
+      simp only [e1, Bool.false_eq_true, ↓reduceIte, x_ofNat]
+      rw [window_fold2 M v hv]
+      simp only [Nat.cast_zero, zero_add, x_log2, x_add]
+      have : XR.log2 (XR.fin (keptSum2 M (finites v))) = XR.fin (Real.logb 2 (keptSum2 M (finites v))) := by
+        simp [XR.log2, hkpos]
+      rw [this]; rfl
+    · rw [sum_exp2_shift M, Real.logb_mul (ne_of_gt (two_rpow_pos M)) (ne_of_gt hSpos),
+        Real.logb_rpow (by norm_num) (by norm_num)]
+      have hlog_le : Real.log (keptSum2 M (finites v)) ≤ Real.log (shiftedSum2 M (finites v)) := Real.log_le_log hkpos hb1
+      have hdiff : Real.log (shiftedSum2 M (finites v)) - Real.log (keptSum2 M (finites v)) ≤ (finites v).length * (2 : ℝ) ^ (-500 : ℝ) := by
+        rw [← Real.log_div (ne_of_gt hSpos) (ne_of_gt hkpos)]
+        have hq : shiftedSum2 M (finites v) / keptSum2 M (finites v) ≤ 1 + (finites v).length * (2 : ℝ) ^ (-500 : ℝ) := by
+          rw [div_le_iff₀ hkpos]
+          have hnn : 0 ≤ ((finites v).length : ℝ) * (2 : ℝ) ^ (-500 : ℝ) := mul_nonneg (Nat.cast_nonneg _) (le_of_lt (two_rpow_pos _))
+          nlinarith
+        have hqpos : 0 < shiftedSum2 M (finites v) / keptSum2 M (finites v) := div_pos hSpos hkpos
+        have := Real.log_le_sub_one_of_pos hqpos
+        linarith
+      have hlen : ((finites v).length : ℝ) ≤ v.length := by exact_mod_cast finites_length_le v
+      have hep := two_rpow_pos (-500 : ℝ)
+      have hbound : Real.log (shiftedSum2 M (finites v)) - Real.log (keptSum2 M (finites v)) ≤ v.length * (2 : ℝ) ^ (-500 : ℝ) := by nlinarith
+      have e : Real.logb 2 (keptSum2 M (finites v)) + M - (M + Real.logb 2 (shiftedSum2 M (finites v)))
+          = -((Real.log (shiftedSum2 M (finites v)) - Real.log (keptSum2 M (finites v))) / Real.log 2) := by
+        simp only [Real.logb]; field_simp; ring
+      rw [e, abs_neg, abs_of_nonneg (div_nonneg (by linarith) (le_of_lt hl2))]
+      exact div_le_div_of_nonneg_right hbound (le_of_lt hl2)
+
 end EaselModel.Vec
